@@ -309,3 +309,17 @@ Proof.
 Qed.
 
 End Pipeline.
+
+(** An ORPHAN control response (no open transaction under its system bytes in the current generation)
+    is answered Reject(reason 3) and changes nothing else: in particular a Select.rsp(0) commits
+    Selected only on a registry hit. *)
+Theorem orphan_rsp_no_commit : forall p s n f, f_pt f = 0 -> f_body f = [] ->
+  (f_st f = 2 \/ f_st f = 4 \/ f_st f = 6) -> reg_get (gen s) (f_sys f) (reg s) = None ->
+  dispatch p s n f = (enq_int s (reject_not_open f), []) /\
+  st (enq_int s (reject_not_open f)) = st s /\ calls (enq_int s (reject_not_open f)) = calls s /\
+  f_st (reject_not_open f) = 7 /\ f_b3 (reject_not_open f) = 3 /\ f_b2 (reject_not_open f) = f_st f /\
+  f_sys (reject_not_open f) = f_sys f.
+Proof.
+  intros p s n f PT BD ST RG. split; [|repeat split; reflexivity].
+  unfold dispatch. rewrite PT, BD, RG. destruct ST as [E|[E|E]]; rewrite E; reflexivity.
+Qed.
